@@ -111,7 +111,7 @@ Qed.
 
 Lemma get_index_eq v i ib : G.get_index v i ib = get_index v i ib.
 Proof.
-  unfold G.get_index, get_index. props. generalize (vlen v) as L. intros L. destruct ib; crush.
+  unfold G.get_index, get_index. props. generalize (vlen_nonneg v). generalize (vlen v) as L. intros L HL. destruct ib; crush.
 Qed.
 
 Lemma zero_slice_eq v : G.zero_slice v = zero_slice fl v.
@@ -130,7 +130,7 @@ Qed.
 Lemma relative_position_eq v i sf : G.relative_position v i sf = relative_position v i sf.
 Proof. unfold G.relative_position, relative_position. props. crush. Qed.
 
-Ltac kernel v := props; rewrite ?zero_slice_eq, ?init_eq_some; unfold rebuild; generalize (vlen v) as L; intros L.
+Ltac kernel v := props; rewrite ?zero_slice_eq, ?init_eq_some; unfold rebuild; generalize (vlen_nonneg v); generalize (vlen v) as L; intros L HL.
 
 Lemma ff_eq v a b c : G.get_forward_slice_from_forward v a b c = get_forward_slice_from_forward fl v a b c.
 Proof. unfold G.get_forward_slice_from_forward, get_forward_slice_from_forward. kernel v. crush. Qed.
@@ -320,7 +320,7 @@ Qed.
 
 Lemma get_index_eq v i ib : G.get_index v i ib = get_index v i ib.
 Proof.
-  unfold G.get_index, get_index. props. generalize (vlen v) as L. intros L. destruct ib; crush.
+  unfold G.get_index, get_index. props. generalize (vlen_nonneg v). generalize (vlen v) as L. intros L HL. destruct ib; crush.
 Qed.
 
 Lemma zero_slice_eq v : G.zero_slice v = zero_slice fl v.
@@ -339,7 +339,7 @@ Qed.
 Lemma relative_position_eq v i sf : G.relative_position v i sf = relative_position v i sf.
 Proof. unfold G.relative_position, relative_position. props. crush. Qed.
 
-Ltac kernel v := props; rewrite ?zero_slice_eq, ?init_eq_some; unfold rebuild; generalize (vlen v) as L; intros L.
+Ltac kernel v := props; rewrite ?zero_slice_eq, ?init_eq_some; unfold rebuild; generalize (vlen_nonneg v); generalize (vlen v) as L; intros L HL.
 
 Lemma ff_eq v a b c : G.get_forward_slice_from_forward v a b c = get_forward_slice_from_forward fl v a b c.
 Proof. unfold G.get_forward_slice_from_forward, get_forward_slice_from_forward. kernel v. crush. Qed.
@@ -515,7 +515,7 @@ Qed.
 
 Lemma get_index_eq v i ib : G.get_index v i ib = get_index v i ib.
 Proof.
-  unfold G.get_index, get_index. props. generalize (vlen v) as L. intros L. destruct ib; crush.
+  unfold G.get_index, get_index. props. generalize (vlen_nonneg v). generalize (vlen v) as L. intros L HL. destruct ib; crush.
 Qed.
 
 Lemma zero_slice_eq v : G.zero_slice v = zero_slice fl v.
@@ -534,7 +534,7 @@ Qed.
 Lemma relative_position_eq v i sf : G.relative_position v i sf = relative_position v i sf.
 Proof. unfold G.relative_position, relative_position. props. crush. Qed.
 
-Ltac kernel v := props; rewrite ?zero_slice_eq, ?init_eq; unfold rebuild; generalize (vlen v) as L; intros L.
+Ltac kernel v := props; rewrite ?zero_slice_eq, ?init_eq; unfold rebuild; generalize (vlen_nonneg v); generalize (vlen v) as L; intros L HL.
 
 Lemma ff_eq v a b c : G.get_forward_slice_from_forward v a b c = get_forward_slice_from_forward fl v a b c.
 Proof. unfold G.get_forward_slice_from_forward, get_forward_slice_from_forward. kernel v. crush. Qed.
